@@ -540,6 +540,11 @@ def wrapper_slot_keys_agree(prog, chk, rid):
                 args = _q.call_args(f, c)
                 if args:
                     x = f.strip(args[-1])
+                    xn = f.nodes[x]
+                    if xn["k"] == "DeclRefExpr" and xn["ref"].get("dk") == "local":      # `const MemberFuncPtr slotKey(slot);`
+                        ini = _q.single_def(f, xn["ref"]["id"], _q.local_defs(f))
+                        if ini is not None:
+                            x = f.strip(ini)
                     for y in [x] + list(f.desc(x)):
                         t = f.nodes[y].get("t") or ""
                         if "::*)" in t:
